@@ -116,9 +116,16 @@ pub fn strip_last_time(s: &str) -> String {
 
 /// feed the frames, dumping after every step
 pub fn history_transcript(frames: &[Vec<u8>], rx: (f64, f64), range: f64) -> String {
+    history_transcript_with(frames, rx, range, &mut |_, _| {})
+}
+
+/// as above; `before(planes, i)` runs before frame i (the std side lets time pass there, which
+/// must not change anything observable without `prune`)
+pub fn history_transcript_with(frames: &[Vec<u8>], rx: (f64, f64), range: f64, before: &mut dyn FnMut(&mut Airplanes, usize)) -> String {
     let mut planes = Airplanes::new();
     let mut s = String::new();
     for (i, b) in frames.iter().enumerate() {
+        before(&mut planes, i);
         match Frame::from_bytes(b) {
             Err(_) => s += &format!("#{i} Err\n"),
             Ok(f) => {
